@@ -18,9 +18,9 @@
 //     ascending and in descending object-number order, object stream unfiltered / `/Filter /ASCIIHexDecode` / `/Filter [/ASCIIHexDecode]`.
 //     A tenth layout (`abutting`: no white-space at all between members where the syntax needs none) runs in its own test.
 //   READERS: FileOptions::uncached() and ::cached(), strict and tolerant parse options.
-//   ORDER OF ACCESS: uncached: every permutation of the members for n <= 5 (n = 6: every rotation of the ascending and the descending
-//     order and 120 further permutations). cached: a fresh document per order (its caches start empty): every permutation for n <= 4, above
-//     the rotations + every 6th permutation. Every member is read twice in a row at the end.
+//   ORDER OF ACCESS: every permutation of the members for n <= 4; n = 5, 6: every rotation of the ascending and of the descending order
+//     and every 6th (n = 6: every 24th) permutation in lexicographic order (30 / 42 orders). uncached: one document pair, all orders; cached: a fresh document
+//     pair per order (its caches start empty). Every member is read twice in a row at the end of each order.
 //   STREAM LENGTH: object 4+n of both files is a stream holding `HELLO`; its /Length is a reference to the member `5` when the list has
 //     one (stored plain in A, compressed in B), else the direct integer 5: raw data must be `HELLO` in both.
 // Checked: both loads succeed; for every member and every order resolve(k 0 R) is Ok in both files with equal Primitives (and equal to the
@@ -207,7 +207,7 @@ fn permutations(n: usize) -> Vec<Vec<usize>> {
     rec(&mut Vec::new(), &mut vec![false; n], n, &mut out);
     out
 }
-fn orders(n: usize) -> Vec<Vec<usize>> { if n <= 5 { permutations(n) } else { sparse_orders(n) } }
+fn orders(n: usize) -> Vec<Vec<usize>> { if n <= 4 { permutations(n) } else { sparse_orders(n) } }
 fn sparse_orders(n: usize) -> Vec<Vec<usize>> {
     let all = permutations(n);
     let mut out: Vec<Vec<usize>> = Vec::new();
@@ -215,7 +215,7 @@ fn sparse_orders(n: usize) -> Vec<Vec<usize>> {
         out.push((0..n).map(|i| (i + r) % n).collect());
         out.push((0..n).map(|i| (n - 1 - i + r) % n).collect());
     }
-    out.extend(all.into_iter().step_by(6));
+    out.extend(all.into_iter().step_by(if n <= 5 { 6 } else { 24 }));
     out
 }
 
@@ -288,11 +288,11 @@ fn run(layouts: &[Layout], ns: std::ops::RangeInclusive<usize>, what: &str, min_
     let mut f = Fails { n: 0, checked: 0, shown: Vec::new() };
     for n in ns {
         let ords = orders(n);
-        // cached documents are rebuilt for every order: all orders for n <= 4, every rotation + every 6th permutation above
-        let cached_ords: Vec<Vec<usize>> = if n <= 4 { ords.clone() } else { sparse_orders(n) };
+        let cached_ords: Vec<Vec<usize>> = ords.clone();
         for stride in [1usize, 7] {
             if n >= 5 && stride == 7 { continue; }
             for start in 0..v.len() {
+                if f.n > 300 { break; }   // enough failing inputs to report: do not spend minutes on a broken tree
                 let members: Vec<&Val> = (0..n).map(|j| &v[(start + j * stride) % v.len()]).collect();
                 let plain = build_plain(&members);
                 for &l in layouts {
